@@ -41,8 +41,23 @@ func checkFlagOrder(c *Check, p *Prog, pkg, key string) {
 			add(f)
 		}
 	}
-	// flag-bound globals
-	bound := map[*ssa.Global]string{}
+	// flag-bound variables: a package-level variable, or a field of one (key: variable + field index, -1 for the whole)
+	type vkey struct {
+		g *ssa.Global
+		f int
+	}
+	bound := map[vkey]string{}
+	keyOf := func(v ssa.Value) (vkey, bool) {
+		switch t := v.(type) {
+		case *ssa.Global:
+			return vkey{t, -1}, true
+		case *ssa.FieldAddr:
+			if g, ok := t.X.(*ssa.Global); ok {
+				return vkey{g, t.Field}, true
+			}
+		}
+		return vkey{}, false
+	}
 	for _, f := range fns {
 		for _, b := range f.Blocks {
 			for _, in := range b.Instrs {
@@ -54,12 +69,12 @@ func checkFlagOrder(c *Check, p *Prog, pkg, key string) {
 				if cal == nil || cal.Pkg == nil || cal.Pkg.Pkg.Path() != "flag" || !strings.HasSuffix(cal.Name(), "Var") || len(call.Common().Args) < 2 {
 					continue
 				}
-				if g, ok := call.Common().Args[0].(*ssa.Global); ok {
+				if k0, ok := keyOf(call.Common().Args[0]); ok {
 					name := ""
 					if k, ok := call.Common().Args[1].(*ssa.Const); ok {
 						name = strings.Trim(k.Value.ExactString(), `"`)
 					}
-					bound[g] = name
+					bound[k0] = name
 				}
 			}
 		}
@@ -121,11 +136,20 @@ func checkFlagOrder(c *Check, p *Prog, pkg, key string) {
 				if !ok {
 					continue
 				}
-				g, ok := u.X.(*ssa.Global)
+				k0, ok := keyOf(u.X)
 				if !ok {
 					continue
 				}
-				name, isFlag := bound[g]
+				g := k0.g
+				name, isFlag := bound[k0]
+				if !isFlag && k0.f == -1 {
+					// the whole struct is read (passed by value): counts as a read of each flag field in it
+					for bk, bn := range bound {
+						if bk.g == g && bk.f >= 0 {
+							name, isFlag = bn, true
+						}
+					}
+				}
 				if !isFlag {
 					continue
 				}
